@@ -64,6 +64,16 @@ Accepts(kind, wire, digest) ==
     /\ digest = H[<<Size(kind), Preimage(kind, wire)>>]
 Report(kind, wire, digest) == Accepts(kind, wire, digest) /\ UNCHANGED ivars
 
+\* MultiEraTx::find_plutus_data(by): a lookup by hash is an observer of datum identity.
+\* `among` = the witness datums of the transaction (their wire bytes), `found` = the wire
+\* bytes of the datum returned, or `none` (0 in traces).  It must find a datum iff `by` is the hash of
+\* the wire bytes of one of them (so not by the hash of some re-encoding).
+FindAccepts(among, by, found, none) ==
+    /\ \A w \in among : <<256, w>> \in DOMAIN H
+    /\ LET hits == {w \in among : H[<<256, w>>] = by}
+       IN IF hits = {} THEN found = none ELSE found \in hits
+Find(among, by, found, none) == FindAccepts(among, by, found, none) /\ UNCHANGED ivars
+
 \* ---- properties of the table ----
 \* kinds hashed with the same digest size never share a pre-image for the same wire
 \* bytes unless they are the same rule (script languages and Byron block types are
